@@ -1187,3 +1187,41 @@ Proof.
              (fun b => bind (parse_sig_fuel f2 b) (fun '(s, _) => Ok (s_core s))) false st1 unhashed); auto.
   intros b Hb. apply Emb. simpl in *. lia.
 Qed.
+
+(* ------------------------------------------------------------------ *)
+(* what an identity and a subkey show (F38, F39)                       *)
+(* ------------------------------------------------------------------ *)
+Theorem identity_attrs_exact : forall primary i,
+  i_attrs (identity_info fixed primary i) = describe_sig fixed (id_self i) (pk_created primary).
+Proof. intros. unfold identity_info. cbn [i_attrs fix38 fixed]. apply app_nil_r. Qed.
+
+Theorem subkey_dates_exact : forall s,
+  subkey_sig_attrs fixed s =
+    [(bs "Usage", usage_string (sc_flags (sk_sig s)));
+     (bs "Created", fmt_date_utc (pk_created (sk_key s)));
+     (bs "Expires", match sc_keylife (sk_sig s) with
+                    | None => bs "never"
+                    | Some 0 => bs "never"
+                    | Some l => fmt_date_utc (pk_created (sk_key s) + l)
+                    end)].
+Proof. intros s. unfold subkey_sig_attrs. rewrite dates_exact. reflexivity. Qed.
+
+(* F38: the old code appended the attributes of every other signature behind the user ID *)
+Definition f38_other : sigcore := mksig 16 22 8 [] [0; 0] [] 1500000200 (Some 5) (Some 1) true 47.
+Definition f38_identity : identity := mkid (bs "alice") f28_sig [f38_other].
+Lemma f38_legacy : map fst (i_attrs (identity_info legacy ex_key f38_identity)) =
+  [bs "Usage"; bs "Created"; bs "Expires"; bs "Usage"; bs "Created"; bs "Expires"].
+Proof. vm_compute. reflexivity. Qed.
+Lemma f38_fixed : map fst (i_attrs (identity_info fixed ex_key f38_identity)) = [bs "Usage"; bs "Created"; bs "Expires"].
+Proof. vm_compute. reflexivity. Qed.
+
+(* F39: subkey created 2020-01-01, binding signature renewed on 2020-06-01 *)
+Definition f39_subkey : subkey :=
+  mksub (mkpub 1577836800 18 (KECDH oid_x25519 (mkmpi 263 (64 :: repeat 7 32)) [3; 1; 8; 7]))
+        (mksig 24 22 8 [] [0; 0] [] 1590969600 (Some 107740800) None true 12).
+Lemma f39_legacy : subkey_sig_attrs legacy f39_subkey =
+  [(bs "Usage", bs "encrypt communications, encrypt storage"); (bs "Created", bs "2020-06-01"); (bs "Expires", bs "2023-06-01")].
+Proof. vm_compute. reflexivity. Qed.
+Lemma f39_fixed : subkey_sig_attrs fixed f39_subkey =
+  [(bs "Usage", bs "encrypt communications, encrypt storage"); (bs "Created", bs "2020-01-01"); (bs "Expires", bs "2023-06-01")].
+Proof. vm_compute. reflexivity. Qed.
